@@ -1,24 +1,35 @@
 """C04 — applied pilots are exactly what the submitted schedules say.
 
-Three kinds of case:
+Four kinds of case:
   direct : a real Simulator whose `_update_schedules` is called with a sequence of schedules at chosen
            `_iteration` values while the event queue is set to chosen contents (so `get_last_timestamp()`
            varies, incl. empty queue); `pilot_signals` / exception class after every call.
   run    : a whole `Simulator.run()` with a scripted multi-period scheduler; per period the pilots the
            EVSEs received (`current_pilot`, read in `post_charging_update` of a ChargingNetwork subclass),
            column t of `pilot_signals` at that moment, the final matrix, the exception ending the run.
+  step   : the same simulations driven through `Simulator.step(schedule)`.
   exh    : a slice of the exhaustive small-scope enumeration of direct scenarios (thorough tier).
+Every kind but exh may contain steps that are NOT submissions — `Simulator.from_json(sim.to_json())` (the restored
+object replaces the live one) and `update_scheduler` — before use, in the middle of run(), between legs of a run,
+between step() calls, between direct submissions (`_do_actions`); every observation is made PER STATION ID against
+the station list of the case (ground truth), never by position or by what the (restored) object says its order is.
 """
 from __future__ import annotations
 
+import io
 import itertools
 import json
+import os
+import tempfile
+import warnings
 from datetime import datetime
 
 import numpy as np
 
 from core.common import f2b, b2f, close
 from core import impl as I
+
+from acnportal.acnsim.network.charging_network import ChargingNetwork as _ChargingNetwork
 
 ID = "C04"
 LEAN_MODULES = ["AcnProofs.C04"]
@@ -32,6 +43,7 @@ REQUIRED_THEOREMS = [
     "Acn.C04.runPeriods_eq_runTrips", "Acn.C04.trips_applied_eq_spec", "Acn.C04.step_applied_eq_spec",
     "Acn.C04.step_no_indexError", "Acn.C04.last_applied_eq_column", "Acn.C04.last_applied_eq_spec",
     "Acn.C04.reject_keeps_scheduling_state",
+    "Acn.C04.restore_roundtrip", "Acn.C04.hist_eq_trips", "Acn.C04.hist_applied_eq_spec",
 ]
 BUDGET = {"quick": 700, "thorough": 6000, "search": 4000}
 TRUSTED = ["numpy slice assignment / np.array densification / float conversion of int and numpy values "
@@ -39,10 +51,20 @@ TRUSTED = ["numpy slice assignment / np.array densification / float conversion o
            "dict iteration order = insertion order (the model takes the association list in that order; "
            "independence of the order is a theorem and is also tested on the implementation)",
            "the feasibility warning in _update_schedules has no effect on state (exercised with infeasible "
-           "schedules, not modelled)"]
+           "schedules, not modelled)",
+           "json.dump(s) without sort_keys writes the members of a dict in insertion order and json.load(s) restores "
+           "them in document order; ndarray.tolist() / np.array(list of equally long float rows) is the identity on "
+           "values and shape (the model's restore step: rows as a nested list, key order unchanged); both are "
+           "exercised on the implementation in every restore step and judged per station ID"]
 ASSUMPTIONS = ["schedule rows are 1-D sequences of numbers (nested / scalar rows raise numpy or TypeError "
                "errors outside the property)",
-               "pilot_signals has one row per registered station (stations registered before the Simulator is built)"]
+               "pilot_signals has one row per registered station (stations registered before the Simulator is built)",
+               "the network has at least one station (a Simulator over a station-less network does not survive "
+               "to_json / from_json: np.array([]) is 1-D — theorem restore_roundtrip needs 0 < n; not generated)",
+               "the steps of a history other than loop trips are Simulator.from_json(sim.to_json()) (string, buffer, "
+               "file; the restored object replaces the live one) and update_scheduler; pilot_signals is not assigned "
+               "to from outside; to_json needs a scheduler object, so step()-driven simulations that are saved are "
+               "built with a BaseAlgorithm that step() never asks"]
 RULE = ("direct: 1-3 stations (registration order not sorted), start queue empty or not, 1-7 submissions at "
         "non-decreasing (10 %: arbitrary) iterations with the queue reset before each (lastTs none / behind / "
         "beyond the block), schedules over any subset of stations, lengths 0-6, int/float/numpy rows, empty "
@@ -59,6 +81,20 @@ RULE = ("direct: 1-3 stations (registration order not sorted), start queue empty
         "float64/float32/int64/int32 arrays, numpy float/int scalars, 0-d arrays, mixed, length-1 array, "
         "integers beyond 2^53); exh (thorough): every "
         "sequence of <=3 submissions over 2 stations, t<=3 non-decreasing, len<=3 (plus empty / ragged / unknown-station dicts), lastTs in {none,4} independently per submission, start width in {1,5}: 564,672 scenarios. "
+        "HISTORIES WITH STEPS THAT ARE NOT SUBMISSIONS (about half of the run cases, 45 % of the step cases, 30 % of "
+        "the direct cases; model: AcnModel/PilotsHist.lean, driver op `mark`): Simulator.from_json(sim.to_json()) "
+        "through a string, a StringIO buffer or a file, followed by update_scheduler with the same scheduler object, "
+        "a new one (run: possibly another max_recompute) or (step/direct) none at all, and bare update_scheduler "
+        "(same / new object), 1-2 of them at a time — before use (also ChargingNetwork.from_json(net.to_json()) "
+        "before the Simulator is built), in the MIDDLE of run() (the scripted scheduler hands control back at 1-3 "
+        "chosen periods, the harness acts and calls run() again), BETWEEN LEGS (the queue has run dry, actions, new "
+        "sessions / recompute events at later periods, run() again; 1-2 further legs), between step() calls and "
+        "between direct submissions; combined with everything above (multi-period tails, empty / shorter follow-up "
+        "schedules, rejected schedules and resumes).  Station ids are registered in random (mostly NON-sorted) "
+        "order and everything is observed PER STATION ID against the case's own station list (never the restored "
+        "object's): the EVSE object registered under s, pilot_signals[index_of_evse(s)], the column labelled s of "
+        "pilot_signals_as_df(); after every such step the whole matrix is compared per ID with the spec of the "
+        "submissions made so far and with the model's matrix after its own restore / swap step. "
         "non-trivial = an accepted submission overwrites part of an earlier accepted one, or the matrix has to "
         "grow, or a submission is rejected; distinct by hash of the case")
 
@@ -176,6 +212,130 @@ def _mat(a):
     return [[float(x) for x in row] for row in a]
 
 
+# ------------------------------------------------------------------ observation per station ID; save / restore / swap
+
+# the simulator the logging network belongs to at the moment, the log it writes to, the station ids of the
+# CASE (ground truth: the order in which the harness registered them — never read back from the object)
+_CUR = {"sim": None, "log": None, "stations": None}
+
+
+class _Pause(Exception):
+    """raised by the scripted scheduler to hand control back to the harness in the middle of run()"""
+
+
+class LogNet(_ChargingNetwork):
+    """ChargingNetwork whose public extension point records, per station ID, what every EVSE received in this
+    period and what the simulator recorded for it.  Module-level and without instance attributes, so that
+    to_json / from_json treat it exactly like the plain class (from_json locates `props.C04.LogNet`)."""
+
+    def post_charging_update(self):
+        sim, log, stations = _CUR["sim"], _CUR["log"], _CUR["stations"]
+        if sim is None or sim.network is not self:
+            return
+        t = sim.iteration
+        w = sim.pilot_signals.shape[1]
+        log.append({
+            "t": int(t), "lastTs": sim.event_queue.get_last_timestamp(), "width": int(w),
+            # by ID: the EVSE object registered under s; the row the public index_of_evse(s) names
+            "applied": [float(self._EVSEs[s].current_pilot) for s in stations],
+            "col": [float(sim.pilot_signals[sim.index_of_evse(s), t]) for s in stations] if t < w else None,
+        })
+
+
+def _rows_by_id(sim, stations):
+    """pilot_signals, one row per station of the CASE in the case's order, located through index_of_evse"""
+    return [[float(x) for x in sim.pilot_signals[sim.index_of_evse(s)]] for s in stations]
+
+
+def _df_by_id(sim, stations):
+    """the same through pilot_signals_as_df(): the column labelled s"""
+    try:
+        df = sim.pilot_signals_as_df()
+        return [[float(x) for x in np.asarray(df[s].values, dtype=float).ravel()] for s in stations]
+    except Exception as e:  # noqa
+        return "raised " + I.err_name(e)
+
+
+def _json_roundtrip(sim, via):
+    from acnportal.acnsim import Simulator
+    with warnings.catch_warnings():
+        warnings.simplefilter("ignore")
+        if via == "buf":
+            b = io.StringIO()
+            sim.to_json(b)
+            b.seek(0)
+            return Simulator.from_json(b)
+        if via == "file":
+            with tempfile.TemporaryDirectory(prefix="c04_") as d:
+                path = os.path.join(d, "sim.json")
+                sim.to_json(path)
+                return Simulator.from_json(path)
+        return Simulator.from_json(sim.to_json())
+
+
+def _net_roundtrip(net, via):
+    with warnings.catch_warnings():
+        warnings.simplefilter("ignore")
+        if via == "buf":
+            b = io.StringIO()
+            net.to_json(b)
+            b.seek(0)
+            return type(net).from_json(b)
+        return type(net).from_json(net.to_json())
+
+
+def _do_actions(ctx, actions, marks, extra=None):
+    """steps that are NOT schedule submissions, performed between uses of a simulation:
+      {"a":"json","via":"str"|"buf"|"file","sched":"same"|"new"|"none"[,"mr":k|None]}
+            sim = Simulator.from_json(sim.to_json()) [+ update_scheduler]
+      {"a":"swap","sched":"same"|"new"[,"mr":k|None]}          sim.update_scheduler(...)
+    ctx = {"sim", "sched", "new_sched"(mr) -> scheduler object, "stations", "calls", "log"}.
+    After every action a `mark` holds pilot_signals per station ID (index_of_evse and pilot_signals_as_df)."""
+    for a in actions:
+        sim = ctx["sim"]
+        if a["a"] == "json":
+            sim = _json_roundtrip(sim, a.get("via", "str"))
+            ctx["sim"] = sim
+            _CUR["sim"] = sim
+        which = a.get("sched", "same")
+        if which != "none":
+            if which == "new":
+                mr = a["mr"] if "mr" in a else ctx["sched"].max_recompute
+                ctx["sched"] = ctx["new_sched"](mr)
+            sim.update_scheduler(ctx["sched"])
+        m = {"a": a["a"], "via": a.get("via"), "sched": which, "t": int(sim.iteration),
+             "ncalls": len(ctx["calls"]), "nlog": len(ctx["log"]), "width": int(sim.pilot_signals.shape[1]),
+             "order": list(sim.network.station_ids), "max_recompute": sim.max_recompute,
+             "pending": bool(np.any(sim.pilot_signals[:, int(sim.iteration):] != 0)),
+             "rows": _rows_by_id(sim, ctx["stations"]), "df": _df_by_id(sim, ctx["stations"])}
+        if extra:
+            m.update(extra)
+        marks.append(m)
+
+
+def _mark_op(m, i):
+    return {"op": "mark", "kind": ("restore" if m["a"] == "json" else "swap"), "t": m["t"], "lastTs": None, "_mi": i}
+
+
+def _oracle_marks(stations, marks, subs_upto, fails, tag=""):
+    """after a restore / swap (no submission) every cell, read per station ID, is still what the schedules
+    submitted SO FAR say; `subs_upto(mark)` = those submissions"""
+    for i, m in enumerate(marks):
+        what = (f"{tag}after {'Simulator.from_json(to_json()) via ' + str(m['via']) if m['a'] == 'json' else 'update_scheduler'}"
+                f" (scheduler: {m['sched']}) at iteration {m['t']}")
+        subs = subs_upto(m)
+        for name, rows in (("pilot_signals[index_of_evse]", m["rows"]), ("pilot_signals_as_df()", m["df"])):
+            if isinstance(rows, str):
+                fails.append({"kind": "pilot_signals_unreadable_after_restore", "detail": f"{what}: {name} {rows}"})
+                return
+            bad = _first_diff(stations, subs, rows)
+            if bad:
+                kind = "pilot_signal_differs_from_spec_after_restore" if m["a"] == "json" else \
+                    "pilot_signal_differs_from_spec_after_update_scheduler"
+                fails.append({"kind": kind, "detail": f"{what}: {name}: {bad} (station_ids now {m['order']})"})
+                return
+
+
 # ------------------------------------------------------------------ direct mode
 
 class _DirectSim:
@@ -188,13 +348,32 @@ class _DirectSim:
         self.net = _network(stations, limit)
         self.sim = Simulator(self.net, BaseAlgorithm(), _queue(start_queue), datetime(2020, 1, 1), verbose=False)
         self.width0 = int(self.sim.pilot_signals.shape[1])
-        self.order_ok = list(self.net.station_ids) == self.stations
+        self.marks = []
+        self.nops = 0
+
+    @property
+    def order_ok(self):
+        return list(self.sim.network.station_ids) == self.stations
 
     def reset(self):
         self.sim.pilot_signals = np.zeros((len(self.stations), self.width0))
         self.sim._iteration = 0
 
+    def _new_sched(self, mr):
+        from acnportal.algorithms import BaseAlgorithm
+        a = BaseAlgorithm()
+        a.max_recompute = mr
+        return a
+
     def op(self, o, full=True):
+        if o.get("pre"):
+            # save / restore / scheduler swap between two submissions (the restored object replaces the live one)
+            ctx = {"sim": self.sim, "sched": self.sim.scheduler, "new_sched": self._new_sched,
+                   "stations": self.stations, "calls": [None] * self.nops, "log": []}
+            _do_actions(ctx, o["pre"], self.marks)
+            self.sim = ctx["sim"]
+            self.net = self.sim.network
+        self.nops += 1
         sim = self.sim
         sim._iteration = int(o["t"])
         sim.event_queue = _queue(o["queue"])
@@ -226,21 +405,27 @@ class _DirectSim:
         st = {"err": err, "unchanged": unchanged, "perm_same": perm_same, "other_state_same": other_state,
               "lastTs": sim.event_queue.get_last_timestamp()}
         if full:
-            st["rows"] = _mat(after)
+            st["rows"] = _rows_by_id(sim, self.stations)      # per station ID, in the case's order
         return st
 
 
 def _run_direct(case):
     d = _DirectSim(case["stations"], case.get("limit"), case.get("start_queue", []))
     steps = [d.op(o) for o in case["ops"]]
-    return {"width0": d.width0, "order_ok": d.order_ok, "steps": steps}
+    return {"width0": d.width0, "order_ok": d.order_ok, "steps": steps, "marks": d.marks}
 
 
-def _req_direct(case, width0, brief=False):
+def _req_direct(case, width0, brief=False, marks=()):
+    """model operations; `_k` = index of the case's op a `submit` stands for, `_mi` = index of the mark"""
     ops = []
-    for o in case["ops"]:
+    mi = 0
+    for k, o in enumerate(case["ops"]):
+        while mi < len(marks) and marks[mi]["ncalls"] == k:
+            ops.append(_mark_op(marks[mi], mi))
+            mi += 1
         q = o["queue"]
-        ops.append({"op": "submit", "t": int(o["t"]), "lastTs": (max(q) if q else None), "sched": _sched_wire(o["sched"])})
+        ops.append({"op": "submit", "t": int(o["t"]), "lastTs": (max(q) if q else None),
+                    "sched": _sched_wire(o["sched"]), "_k": k})
     r = {"stations": case["stations"], "width": width0, "ops": ops}
     if brief:
         r["brief"] = True
@@ -263,7 +448,19 @@ def _cmp_rows(rows, mstep, where, out):
 
 
 def _cmp_direct(case, obs, model, out, tag=""):
-    for k, (a, m) in enumerate(zip(obs["steps"], model["steps"])):
+    marks = obs.get("marks") or []
+    msteps = model["steps"]
+    if marks:
+        # the model's matrix after its own restore / swap step against the restored object's, per station ID
+        ops = _req_direct(case, obs["width0"], marks=marks)["ops"]
+        keep = []
+        for o, m in zip(ops, msteps):
+            if o["op"] == "mark":
+                _cmp_rows(marks[o["_mi"]]["rows"], m, f"{tag}{o['kind']} before op {marks[o['_mi']]['ncalls']}", out)
+            else:
+                keep.append(m)
+        msteps = keep
+    for k, (a, m) in enumerate(zip(obs["steps"], msteps)):
         if a["err"] != m["err"]:
             out.append(f"{tag}op {k}: err impl={a['err']} model={m['err']}")
             return
@@ -273,8 +470,18 @@ def _cmp_direct(case, obs, model, out, tag=""):
 
 def _oracle_direct(case, obs, fails, tag=""):
     stations = case["stations"]
-    if not obs.get("order_ok", True):
+    if obs.get("marks"):
+        _oracle_marks(stations, obs["marks"],
+                      lambda m: [(int(o["t"]), o["sched"]) for o in case["ops"][:m["ncalls"]]], fails, tag)
+        if fails:
+            return
+    _oracle_direct_ops(case, obs, fails, tag)
+    if not fails and not obs.get("order_ok", True):
         fails.append({"kind": "station_order_not_registration_order", "detail": tag})
+
+
+def _oracle_direct_ops(case, obs, fails, tag=""):
+    stations = case["stations"]
     subs = []
     for k, (o, st) in enumerate(zip(case["ops"], obs["steps"])):
         pairs = o["sched"]
@@ -437,25 +644,18 @@ def _run_exh(case):
 # ------------------------------------------------------------------ run mode
 
 def _run_run(case):
+    """a whole simulation: run() [, at chosen scheduler calls the scheduler hands control back (`breaks`) and the
+    harness saves / restores / swaps the scheduler before calling run() again] [, after the queue has run dry
+    further `legs`: actions, new events, run() again]"""
     from acnportal.acnsim import Simulator
-    from acnportal.acnsim.network import ChargingNetwork
     from acnportal.acnsim.events import EventQueue, PluginEvent, RecomputeEvent
     from acnportal.acnsim.models import EV, Battery
     from acnportal.algorithms import BaseAlgorithm
 
     stations = case["stations"]
     script = case["script"]
-
-    class Net(ChargingNetwork):
-        def post_charging_update(self):
-            sim = self._sim
-            t = sim.iteration
-            w = sim.pilot_signals.shape[1]
-            self.log.append({
-                "t": int(t), "lastTs": sim.event_queue.get_last_timestamp(), "width": int(w),
-                "applied": [float(self._EVSEs[s].current_pilot) for s in self.station_ids],
-                "col": [float(x) for x in sim.pilot_signals[:, t]] if t < w else None,
-            })
+    breaks = case.get("breaks") or {}
+    rec = {"calls": [], "attempt": {}, "paused": set()}
 
     def _state(sim):
         h = sim.schedule_history
@@ -463,19 +663,21 @@ def _run_run(case):
                 "hist_keys": sorted(int(k) for k in h) if h is not None else None}
 
     class Script(BaseAlgorithm):
-        """only `schedule` is overridden: the simulator reaches it through the real BaseAlgorithm.run()"""
+        """only `schedule` is overridden: the simulator reaches it through the real BaseAlgorithm.run().
+        All instances (update_scheduler with a different object) share the script and the record."""
 
         def __init__(self, max_recompute):
             super().__init__()
             self.max_recompute = max_recompute
-            self.calls = []
-            self.attempt = {}
 
         def schedule(self, active_sessions):
             sim = self.interface._simulator
             t = int(sim.iteration)
-            k = self.attempt.get(t, 0)
-            self.attempt[t] = k + 1
+            if str(t) in breaks and t not in rec["paused"]:
+                rec["paused"].add(t)
+                raise _Pause()
+            k = rec["attempt"].get(t, 0)
+            rec["attempt"][t] = k + 1
             pairs = script.get(str(t) if k == 0 else f"{t}r{k}", [])
             # what the scheduler sees of the pilots applied in the previous period
             try:
@@ -483,13 +685,16 @@ def _run_run(case):
             except Exception as e:  # noqa
                 la = "raised " + I.err_name(e)
             active = sorted([ev.session_id, ev.station_id, int(ev.arrival)] for ev in sim.get_active_evs())
-            self.calls.append({"t": t, "lastTs": sim.event_queue.get_last_timestamp(), "sched": pairs,
-                               "before": _mat(sim.pilot_signals), "last_applied": la, "active": active,
-                               "n_sessions": len(active_sessions), "state": _state(sim), "raised": None})
+            rec["calls"].append({"t": t, "lastTs": sim.event_queue.get_last_timestamp(), "sched": pairs,
+                                 "before": _mat(sim.pilot_signals), "last_applied": la, "active": active,
+                                 "n_sessions": len(active_sessions), "state": _state(sim), "raised": None})
             return _sched_obj(pairs)
 
-    net = _network(stations, case.get("limit"), maxrate=case.get("maxrate"), cls=Net)
-    net.log = []
+    net = _network(stations, case.get("limit"), maxrate=case.get("maxrate"), cls=LogNet)
+    if case.get("net_json"):
+        # "before use": the network itself goes through JSON before the simulator is built on it
+        net = _net_roundtrip(net, case["net_json"])
+    log = []
     evs = []
     for s in case["sessions"]:
         evs.append(PluginEvent(s["arrival"], EV(s["arrival"], s["departure"], 50, s["station"], s["session"],
@@ -497,36 +702,66 @@ def _run_run(case):
     evs += [RecomputeEvent(int(t)) for t in case.get("recompute", [])]
     sched = Script(case.get("max_recompute"))
     sim = Simulator(net, sched, EventQueue(evs), datetime(2020, 1, 1), verbose=False, store_schedule_history=True)
-    net._sim = sim
+    _CUR.update(sim=sim, log=log, stations=list(stations))
+    ctx = {"sim": sim, "sched": sched, "new_sched": Script, "stations": list(stations), "calls": rec["calls"],
+           "log": log}
+    marks = []
     width0 = int(sim.pilot_signals.shape[1])
     err = None
     runs = 0
-    while True:
-        runs += 1
-        try:
-            sim.run()
-            break
-        except Exception as e:  # noqa
-            name = I.err_name(e)
-            c = sched.calls[-1] if sched.calls else None
-            in_call = (c is not None and c["raised"] is None and c["t"] == int(sim.iteration)
-                       and not any(x["t"] == c["t"] for x in net.log))
-            if in_call and name in ("KeyError", "InvalidSchedule", "TypeError", "ValueError"):
-                # the exception came out of _update_schedules(schedule of this call)
-                c["raised"] = name
-                c["state_after"] = _state(sim)
-                c["after_same"] = _mat(sim.pilot_signals) == c["before"]
-                if case.get("resume") and runs < 6:
-                    continue          # catch the error and call run() again
-            err = name
-            break
-    hist = None
-    if sim.schedule_history is not None:
-        hist = sorted([int(t), sorted([st, [float(x) for x in np.asarray(row, dtype=float).ravel()]]
-                                     for st, row in d.items())] for t, d in sim.schedule_history.items())
-    return {"width0": width0, "order_ok": list(net.station_ids) == list(stations), "err": err, "runs": runs,
-            "iteration": int(sim.iteration), "log": net.log, "calls": sched.calls, "history": hist,
-            "final": _mat(sim.pilot_signals), "rates_w": int(sim.charging_rates.shape[1])}
+    retries = 0
+    legs = list(case.get("legs") or [])
+    try:
+        _do_actions(ctx, case.get("start") or [], marks, {"at": "start"})
+        while True:
+            sim = ctx["sim"]
+            runs += 1
+            try:
+                sim.run()
+            except _Pause:
+                _do_actions(ctx, breaks[str(int(sim.iteration))], marks, {"at": "break"})
+                continue
+            except Exception as e:  # noqa
+                name = I.err_name(e)
+                calls = rec["calls"]
+                c = calls[-1] if calls else None
+                in_call = (c is not None and c["raised"] is None and c["t"] == int(sim.iteration)
+                           and not any(x["t"] == c["t"] for x in log))
+                if in_call and name in ("KeyError", "InvalidSchedule", "TypeError", "ValueError"):
+                    # the exception came out of _update_schedules(schedule of this call)
+                    c["raised"] = name
+                    c["state_after"] = _state(sim)
+                    c["after_same"] = _mat(sim.pilot_signals) == c["before"]
+                    retries += 1
+                    if case.get("resume") and retries < 6:
+                        continue          # catch the error and call run() again
+                err = name
+                break
+            if not legs:
+                break
+            # the queue has run dry: the same simulation is continued with new events
+            leg = legs.pop(0)
+            _do_actions(ctx, leg.get("actions") or [], marks, {"at": "leg"})
+            sim = ctx["sim"]
+            base = int(sim.iteration)
+            new = []
+            for s in leg.get("sessions") or []:
+                a, d = base + s["off"], base + s["off"] + s["dur"]
+                new.append(PluginEvent(a, EV(a, d, 50, s["station"], s["session"], Battery(100, 0, 100))))
+            new += [RecomputeEvent(base + int(o)) for o in leg.get("recompute") or []]
+            if new:
+                sim.event_queue.add_events(new)
+        sim = ctx["sim"]
+        hist = None
+        if sim.schedule_history is not None:
+            hist = sorted([int(t), sorted([st, [float(x) for x in np.asarray(row, dtype=float).ravel()]]
+                                         for st, row in d.items())] for t, d in sim.schedule_history.items())
+        return {"width0": width0, "order_ok": list(sim.network.station_ids) == list(stations), "err": err,
+                "runs": runs, "iteration": int(sim.iteration), "log": log, "calls": rec["calls"], "history": hist,
+                "marks": marks, "final": _rows_by_id(sim, stations), "final_df": _df_by_id(sim, stations),
+                "rates_w": int(sim.charging_rates.shape[1])}
+    finally:
+        _CUR.update(sim=None, log=None, stations=None)
 
 
 def _run_ops(obs):
@@ -541,7 +776,17 @@ def _run_ops(obs):
         ops.append({"op": "submit", "t": c["t"], "lastTs": c["lastTs"], "sched": _sched_wire(c["sched"]),
                     "_err": c["raised"], "_ci": i})
 
+    marks = obs.get("marks") or []
+    mi = 0
+
+    def marks_upto(nlog):
+        nonlocal mi
+        while mi < len(marks) and marks[mi]["nlog"] <= nlog:
+            ops.append(_mark_op(marks[mi], mi))
+            mi += 1
+
     for li, e in enumerate(obs["log"]):
+        marks_upto(li)       # restores / swaps made before this period's scheduler call
         while ci < len(calls) and calls[ci]["t"] == e["t"] and calls[ci].get("raised"):
             rejected(calls[ci], ci)
             ci += 1
@@ -553,6 +798,7 @@ def _run_ops(obs):
             ci += 1
         ops.append({"op": "period", "t": e["t"], "lastTs": e["lastTs"], "_li": li,
                     "sched": _sched_wire(c["sched"]) if c is not None else None})
+    marks_upto(len(obs["log"]))
     # the period in which the run died for good (if any)
     tail = False
     while ci < len(calls):
@@ -577,7 +823,12 @@ def _step_ops(obs):
     """the loop trips of a step()-driven simulation as model operations"""
     ops = []
     li = 0
-    for c in obs["calls"]:
+    marks = obs.get("marks") or []
+    mi = 0
+    for ci, c in enumerate(obs["calls"]):
+        while mi < len(marks) and marks[mi]["ncalls"] <= ci:
+            ops.append(_mark_op(marks[mi], mi))
+            mi += 1
         for _ in range(c["trips"]):
             e = obs["log"][li]
             ops.append({"op": "period", "by": "step", "t": e["t"], "lastTs": e["lastTs"], "_li": li,
@@ -619,6 +870,12 @@ def _cmp_run(case, obs, model, out):
                 out.append(f"period {o['t']}: model raises {exp}, implementation {got}")
             if exp is None and got in ("KeyError", "InvalidSchedule", "TypeError"):
                 out.append(f"period {o['t']}: implementation raises {got}, model accepts")
+        elif o["op"] == "mark":
+            mk = obs["marks"][o["_mi"]]
+            if m["err"] is not None:
+                out.append(f"{o['kind']} at iteration {mk['t']}: model {m['err']}")
+            else:
+                _cmp_rows(mk["rows"], m, f"{o['kind']} at iteration {mk['t']}", out)
         elif o["op"] == "last_applied":
             c = obs["calls"][o["_ci"]]
             ml = None if m["last"] is None else sorted([k, b2f(v)] for k, v in m["last"])
@@ -638,68 +895,98 @@ def _cmp_run(case, obs, model, out):
 # ------------------------------------------------------------------ step mode
 
 def _run_step(case):
-    """a simulation driven through the public `Simulator.step(new_schedule)`"""
+    """a simulation driven through the public `Simulator.step(new_schedule)`; a call may be preceded by steps that
+    are not submissions (`pre`: JSON save / restore, update_scheduler)"""
     from acnportal.acnsim import Simulator
-    from acnportal.acnsim.network import ChargingNetwork
     from acnportal.acnsim.events import EventQueue, PluginEvent, RecomputeEvent
     from acnportal.acnsim.models import EV, Battery
+    from acnportal.algorithms import BaseAlgorithm
 
     stations = case["stations"]
-
-    class Net(ChargingNetwork):
-        def post_charging_update(self):
-            sim = self._sim
-            t = sim.iteration
-            w = sim.pilot_signals.shape[1]
-            self.log.append({
-                "t": int(t), "lastTs": sim.event_queue.get_last_timestamp(), "width": int(w),
-                "applied": [float(self._EVSEs[s].current_pilot) for s in self.station_ids],
-                "col": [float(x) for x in sim.pilot_signals[:, t]] if t < w else None,
-            })
-
-    net = _network(stations, case.get("limit"), cls=Net)
-    net.log = []
+    net = _network(stations, case.get("limit"), cls=LogNet)
+    if case.get("net_json"):
+        net = _net_roundtrip(net, case["net_json"])
+    log = []
     evs = []
     for s in case["sessions"]:
         evs.append(PluginEvent(s["arrival"], EV(s["arrival"], s["departure"], 50, s["station"], s["session"],
                                                  Battery(100, 0, 100))))
     evs += [RecomputeEvent(int(t)) for t in case.get("recompute", [])]
-    sim = Simulator(net, None, EventQueue(evs), datetime(2020, 1, 1), verbose=False)
-    net._sim = sim
     mr = case.get("max_recompute")
+
+    def new_sched(k):
+        a = BaseAlgorithm()
+        a.max_recompute = k
+        return a
+
+    # to_json needs a scheduler object (step() itself never asks it): only cases with `pre` steps get one
+    with_sched = any(c.get("pre") for c in case["calls"])
+    algo = new_sched(mr) if with_sched else None
+    sim = Simulator(net, algo, EventQueue(evs), datetime(2020, 1, 1), verbose=False)
+    _CUR.update(sim=sim, log=log, stations=list(stations))
     sim.max_recompute = mr
     if mr is not None and case.get("seed_lsu"):
         sim._last_schedule_update = 0      # (before the fix of F17 step() needed a number here)
     width0 = int(sim.pilot_signals.shape[1])
     calls = []
-    for c in case["calls"]:
-        if c.get("unstick"):
-            # what a caller has to do to make step() move again once a recompute is pending
-            sim._resolve = False
-            if mr is not None:
-                sim._last_schedule_update = sim._iteration
-        rec = {"sched": c["sched"], "t0": int(sim.iteration), "lastTs0": sim.event_queue.get_last_timestamp(),
-               "queue_empty": bool(sim.event_queue.empty()), "resolve": bool(sim._resolve),
-               "before": _mat(sim.pilot_signals), "err": None, "ret": None}
-        n0 = len(net.log)
-        try:
-            rec["ret"] = bool(sim.step(_sched_obj(c["sched"])))
-        except Exception as e:  # noqa
-            rec["err"] = I.err_name(e)
-        rec["trips"] = len(net.log) - n0
-        rec["after_same"] = _mat(sim.pilot_signals) == rec["before"]
-        del rec["before"]
-        calls.append(rec)
-        if rec["err"] is not None:
-            break
-    return {"width0": width0, "order_ok": list(net.station_ids) == list(stations), "log": net.log,
-            "calls": calls, "final": _mat(sim.pilot_signals), "iteration": int(sim.iteration)}
+    marks = []
+    ctx = {"sim": sim, "sched": algo, "new_sched": new_sched, "stations": list(stations), "calls": calls, "log": log}
+    try:
+        for c in case["calls"]:
+            if c.get("pre"):
+                _do_actions(ctx, c["pre"], marks)
+                sim = ctx["sim"]
+            if c.get("unstick"):
+                # what a caller has to do to make step() move again once a recompute is pending
+                sim._resolve = False
+                if mr is not None:
+                    sim._last_schedule_update = sim._iteration
+            rec = {"sched": c["sched"], "t0": int(sim.iteration), "lastTs0": sim.event_queue.get_last_timestamp(),
+                   "queue_empty": bool(sim.event_queue.empty()), "resolve": bool(sim._resolve),
+                   "before": _mat(sim.pilot_signals), "err": None, "ret": None}
+            n0 = len(log)
+            try:
+                rec["ret"] = bool(sim.step(_sched_obj(c["sched"])))
+            except Exception as e:  # noqa
+                rec["err"] = I.err_name(e)
+            rec["trips"] = len(log) - n0
+            rec["after_same"] = _mat(sim.pilot_signals) == rec["before"]
+            del rec["before"]
+            calls.append(rec)
+            if rec["err"] is not None:
+                break
+        return {"width0": width0, "order_ok": list(sim.network.station_ids) == list(stations), "log": log,
+                "calls": calls, "marks": marks, "final": _rows_by_id(sim, stations),
+                "final_df": _df_by_id(sim, stations), "iteration": int(sim.iteration)}
+    finally:
+        _CUR.update(sim=None, log=None, stations=None)
+
+
+def _final_checks(stations, subs, obs, fails, when):
+    """the whole matrix at the end, per station ID through index_of_evse and through pilot_signals_as_df()"""
+    bad = _first_diff(stations, subs, obs["final"])
+    if bad:
+        fails.append({"kind": "pilot_signal_differs_from_spec", "detail": f"{when}: {bad}"})
+        return
+    df = obs.get("final_df")
+    if isinstance(df, str):
+        fails.append({"kind": "pilot_signals_unreadable_after_restore", "detail": f"{when}: pilot_signals_as_df() {df}"})
+    elif df is not None:
+        bad = _first_diff(stations, subs, df)
+        if bad:
+            fails.append({"kind": "pilot_signals_df_differs_from_spec", "detail": f"{when}: pilot_signals_as_df(): {bad}"})
+    if not fails and not obs["order_ok"]:
+        fails.append({"kind": "station_order_not_registration_order", "detail": ""})
 
 
 def _oracle_step(case, obs, fails):
     stations = case["stations"]
-    if not obs["order_ok"]:
-        fails.append({"kind": "station_order_not_registration_order", "detail": ""})
+    if obs.get("marks"):
+        trip_subs = [c["sched"] for c in obs["calls"] for _ in range(c["trips"])]
+        trip_subs = [(e["t"], sc) for e, sc in zip(obs["log"], trip_subs)]
+        _oracle_marks(stations, obs["marks"], lambda m: trip_subs[:m["nlog"]], fails)
+        if fails:
+            return
     subs = []
     li = 0
     for ci, c in enumerate(obs["calls"]):
@@ -739,16 +1026,16 @@ def _oracle_step(case, obs, fails):
     ts = [e["t"] for e in obs["log"]]
     if ts != list(range(len(ts))):
         fails.append({"kind": "periods_not_consecutive", "detail": str(ts)})
-    bad = _first_diff(stations, subs, obs["final"])
-    if bad:
-        fails.append({"kind": "pilot_signal_differs_from_spec", "detail": f"after the last step: {bad}"})
+    _final_checks(stations, subs, obs, fails, "after the last step")
 
 
 def _oracle_run(case, obs, fails):
     stations = case["stations"]
-    if not obs["order_ok"]:
-        fails.append({"kind": "station_order_not_registration_order", "detail": ""})
     calls = obs["calls"]
+    if obs.get("marks"):
+        _oracle_marks(stations, obs["marks"], lambda m: [(c["t"], c["sched"]) for c in calls[:m["ncalls"]]], fails)
+        if fails:
+            return
     # periods are simulated once each, in order
     ts = [e["t"] for e in obs["log"]]
     if ts != list(range(len(ts))):
@@ -835,9 +1122,7 @@ def _oracle_run(case, obs, fails):
                                     f"{want} in period {i} (active: {c['active']})"})
             break
     allsubs = [(c["t"], c["sched"]) for c in calls]
-    bad = _first_diff(stations, allsubs, obs["final"])
-    if bad:
-        fails.append({"kind": "pilot_signal_differs_from_spec", "detail": f"after the run: {bad}"})
+    _final_checks(stations, allsubs, obs, fails, "after the run")
     w = len(obs["final"][0]) if obs["final"] else None
     for t, pairs in allsubs:
         if _accepted(stations, pairs) and w is not None and w < t + len(pairs[0][1]["v"]):
@@ -938,7 +1223,45 @@ def _gen_direct(rng):
             q = [t + n + rng.randint(1, 6), t]
         q = [x for x in q if x >= 0]
         ops.append({"t": t, "queue": q, "sched": pairs})
+    if rng.random() < 0.3:
+        # save / restore / scheduler swap before some of the submissions (before the first = "before use")
+        for o in ops:
+            if rng.random() < 0.4:
+                o["pre"] = _gen_actions(rng, allow_none=True)
     return {"mode": "direct", "stations": stations, "limit": limit, "start_queue": start_queue, "ops": ops}
+
+
+def _gen_actions(rng, allow_none=False, allow_mr=False):
+    """1-2 steps that are not submissions: JSON save / restore (string, buffer, file; then update_scheduler with
+    the same object, a new one, or not at all) or a bare update_scheduler (same object / a new one)"""
+    out = []
+    for _ in range(rng.choice([1, 1, 1, 2])):
+        if rng.random() < 0.55:
+            a = {"a": "json", "via": rng.choice(["str", "str", "buf", "file"]),
+                 "sched": rng.choice(["same", "new"] + (["none"] if allow_none else []))}
+        else:
+            a = {"a": "swap", "sched": rng.choice(["same", "new"])}
+        if allow_mr and a["sched"] == "new" and rng.random() < 0.4:
+            a["mr"] = rng.choice([None, 1, 2, 3])
+        out.append(a)
+    return out
+
+
+def _gen_leg(rng, stations, k0):
+    """a further leg of a simulation whose queue has run dry: offsets relative to the iteration reached"""
+    sessions = []
+    k = k0
+    for s in stations:
+        if rng.random() < 0.6:
+            off = rng.choice([0, 0, 1, 2, 3])
+            sessions.append({"station": s, "off": off, "dur": rng.choice([1, 1, 2, 3, 4]), "session": f"y{k}"})
+            k += 1
+    recompute = sorted(set(rng.randint(0, 4) for _ in range(rng.choice([0, 0, 1, 2]))))
+    if not sessions and not recompute:
+        recompute = [rng.choice([0, 1, 3])]
+    end = max([x["off"] + x["dur"] for x in sessions] + recompute) + 1
+    return {"actions": (_gen_actions(rng, allow_mr=True) if rng.random() < 0.85 else []),
+            "sessions": sessions, "recompute": recompute}, end, k
 
 
 def _gen_run(rng):
@@ -961,6 +1284,28 @@ def _gen_run(rng):
         horizon = sessions[0]["departure"]
     recompute = sorted(set(rng.randint(0, horizon + 1) for _ in range(rng.choice([0, 0, 1, 2, 3]))))
     horizon = max([horizon] + recompute)
+    # histories with steps that are not submissions: JSON save / restore and update_scheduler before use, in the
+    # middle of run() (the scheduler hands control back at `breaks`), and between legs (queue dry, new events)
+    hist = {}
+    if rng.random() < 0.5:
+        if rng.random() < 0.2:
+            hist["start"] = _gen_actions(rng, allow_mr=True)
+        if rng.random() < 0.15:
+            hist["net_json"] = rng.choice(["str", "buf"])
+        end = horizon + 1 if (sessions or recompute) else 0
+        if rng.random() < 0.6:
+            legs = []
+            for _ in range(rng.choice([1, 1, 2])):
+                leg, n, k = _gen_leg(rng, stations, k)
+                legs.append(leg)
+                end += n
+            hist["legs"] = legs
+            horizon = max(horizon, end - 1)
+        if rng.random() < 0.7 or not hist:
+            marks = sorted({x["arrival"] for x in sessions} | {x["departure"] for x in sessions} | set(recompute))
+            cand = (marks + marks + list(range(horizon + 1))) or [0]
+            hist["breaks"] = {str(t): _gen_actions(rng, allow_mr=True)
+                              for t in set(rng.choice(cand) for _ in range(rng.choice([1, 2, 3])))}
     max_recompute = rng.choice([None, None, 1, 1, 2, 3])
     r = rng.random()
     maxrate = None
@@ -1004,8 +1349,8 @@ def _gen_run(rng):
             script[f"{t}r1"] = _gen_sched(rng, stations, nonneg=True, p_bad=0.25, p_empty=0.2, vmax=vmax)
             script[f"{t}r2"] = _gen_sched(rng, stations, nonneg=True, p_bad=0.0, p_empty=0.2, vmax=vmax)
     limit = rng.choice([None, None, None, 30, 5])
-    return {"mode": "run", "stations": stations, "limit": limit, "maxrate": maxrate, "sessions": sessions,
-            "recompute": recompute, "max_recompute": max_recompute, "script": script, "resume": resume}
+    return dict({"mode": "run", "stations": stations, "limit": limit, "maxrate": maxrate, "sessions": sessions,
+                 "recompute": recompute, "max_recompute": max_recompute, "script": script, "resume": resume}, **hist)
 
 
 def _r(v):
@@ -1045,6 +1390,38 @@ def corpus():
          "max_recompute": 1,
          "script": {"0": [["S1", _r([30, 31, 32, 33, 34, 35])]], "1": [["S0", _r([6])]], "2": [],
                     "3": [["S0", _r([9, 9])], ["S1", _r([1, 1])]], "4": [["S1", _r([2, 2, 2, 2])]]}},
+        # a history with steps that are not submissions.  Station ids registered in non-sorted order, every
+        # station with its own pilots; long schedules at 0 and 1; the scheduler hands control back at 2 (restore
+        # from a JSON string, same scheduler object) — the periods 2.. are covered only by the old schedule;
+        # queue dry after period 4 with the schedule of period 1 still reaching to 8: restore through a buffer and
+        # a NEW scheduler object with max_recompute 2, new session two periods later, then a bare swap, a third leg
+        {"mode": "run", "stations": ["n2", "e1", "w3"], "limit": None, "maxrate": None, "max_recompute": None,
+         "sessions": [{"station": "n2", "arrival": 0, "departure": 4, "session": "a"},
+                      {"station": "e1", "arrival": 0, "departure": 4, "session": "b"},
+                      {"station": "w3", "arrival": 1, "departure": 2, "session": "c"}], "recompute": [],
+         "script": {"0": [["n2", _r([8] * 8)], ["e1", _r([16.0] * 8)]],
+                    "1": [["w3", _r([25] * 8)], ["e1", _r([17.5] * 8)], ["n2", {"c": "array", "v": [9.0] * 8}]],
+                    "2": [], "4": [], "7": [["e1", _r([30, 31])]], "9": [], "10": [["w3", _r([5])]]},
+         "start": [{"a": "swap", "sched": "same"}],
+         "breaks": {"2": [{"a": "json", "via": "str", "sched": "same"}]},
+         "legs": [{"actions": [{"a": "json", "via": "buf", "sched": "new", "mr": 2}],
+                   "sessions": [{"station": "e1", "off": 2, "dur": 2, "session": "d"}], "recompute": []},
+                  {"actions": [{"a": "swap", "sched": "new", "mr": None}],
+                   "sessions": [{"station": "w3", "off": 0, "dur": 1, "session": "e"}], "recompute": []}]},
+        # the same class through step(): restore (file, no update_scheduler at all) and swaps between the calls,
+        # the first call's schedule reaching past them; follow-up schedules empty or one period long
+        {"mode": "step", "stations": ["S2", "ca-10", "S0"], "limit": None, "max_recompute": 3, "recompute": [6],
+         "sessions": [{"station": "S2", "arrival": 1, "departure": 7, "session": "a"}],
+         "calls": [{"sched": [["S2", _r([1, 2, 3, 4, 5, 6, 7])], ["ca-10", _r([11, 12, 13, 14, 15, 16, 17])]]},
+                   {"sched": [], "pre": [{"a": "json", "via": "file", "sched": "none"}]},
+                   {"sched": [["S0", _r([9])]], "pre": [{"a": "swap", "sched": "new"}]},
+                   {"sched": [], "pre": [{"a": "json", "via": "str", "sched": "same"}, {"a": "swap", "sched": "same"}]}]},
+        # and between direct submissions
+        {"mode": "direct", "stations": ["S2", "S1", "ca-10"], "limit": 40, "start_queue": [6],
+         "ops": [{"t": 0, "queue": [6], "sched": [["S1", _r([1, 2, 3, 4, 5])], ["ca-10", _r([6, 7, 8, 9, 10])]],
+                  "pre": [{"a": "json", "via": "buf", "sched": "none"}]},
+                 {"t": 2, "queue": [6], "sched": [["S2", _r([20.5])]], "pre": [{"a": "json", "via": "str", "sched": "new"}]},
+                 {"t": 3, "queue": [], "sched": [["S1", _r([30, 31])]], "pre": [{"a": "swap", "sched": "same"}]}]},
     ]
 
 
@@ -1070,9 +1447,17 @@ def _gen_step(rng):
     # the clock only if nothing happens at time 0: shift everything by one period
     sessions = [dict(x, arrival=x["arrival"] + 1, departure=x["departure"] + 1) for x in base["sessions"]]
     recompute = [t + 1 for t in base["recompute"]]
-    return {"mode": "step", "stations": stations, "limit": base["limit"], "sessions": sessions,
-            "recompute": recompute, "max_recompute": rng.choice([None, None, 1, 2, 3, 5]), "calls": calls,
-            "seed_lsu": rng.random() < 0.3}
+    out = {"mode": "step", "stations": stations, "limit": base["limit"], "sessions": sessions,
+           "recompute": recompute, "max_recompute": rng.choice([None, None, 1, 2, 3, 5]), "calls": calls,
+           "seed_lsu": rng.random() < 0.3}
+    if rng.random() < 0.45:
+        # save / restore / update_scheduler between step() calls (before the first = before use)
+        for c in calls:
+            if rng.random() < 0.3:
+                c["pre"] = _gen_actions(rng, allow_none=True)
+        if rng.random() < 0.15:
+            out["net_json"] = rng.choice(["str", "buf"])
+    return out
 
 
 def generate(rng, n, tier):
@@ -1099,7 +1484,7 @@ def run_impl(case):
 
 def model_request(case, obs):
     if case["mode"] == "direct":
-        return _req_direct(case, obs["width0"])
+        return _req_direct(case, obs["width0"], marks=obs.get("marks") or [])
     if case["mode"] == "exh":
         return {"batch": [_req_direct(sc, o["width0"], brief=True)
                           for sc, o in zip(_exh_slice(case), obs["res"])]}
@@ -1170,7 +1555,22 @@ def shrink(case, kind):
         return cur
     if case["mode"] == "run":
         cur = case
-        for key in sorted(case["script"], key=int):
+
+        def still(cand):
+            try:
+                return any(f["kind"] == kind for f in oracle(cand, run_impl(cand)))
+            except Exception:
+                return False
+        for fld in ("start", "net_json"):
+            if cur.get(fld) and still({k: v for k, v in cur.items() if k != fld}):
+                cur = {k: v for k, v in cur.items() if k != fld}
+        for t in sorted(cur.get("breaks") or {}):
+            cand = dict(cur, breaks={k: v for k, v in cur["breaks"].items() if k != t})
+            if still(cand):
+                cur = cand
+        while cur.get("legs") and still(dict(cur, legs=cur["legs"][:-1])):
+            cur = dict(cur, legs=cur["legs"][:-1])
+        for key in sorted(case["script"], key=lambda k: (int(k.split("r")[0]), k)):
             cand = dict(cur, script={k: v for k, v in cur["script"].items() if k != key})
             try:
                 if any(f["kind"] == kind for f in oracle(cand, run_impl(cand))):
@@ -1212,8 +1612,40 @@ def _direct_feats(case, obs, out):
         acc.append((t, n))
 
 
+def _mark_feats(case, obs, out):
+    marks = obs.get("marks") or []
+    if not marks:
+        return
+    stations = case["stations"]
+    out.append("history_with_restore_or_swap")
+    unsorted = list(stations) != sorted(stations)
+    for m in marks:
+        what = ("json_" + str(m["via"])) if m["a"] == "json" else "update_scheduler"
+        out.append(f"action:{what}:scheduler_{m['sched']}")
+        if m.get("at"):
+            out.append("action_at:" + m["at"])
+        out.append("action_when:" + ("before_use" if m["ncalls"] == 0 and m["nlog"] == 0 else "mid_history"))
+        if m["pending"]:
+            # an earlier schedule still reaches past the current period: the step must not lose / misplace it
+            out.append(("restore" if m["a"] == "json" else "swap") + "_with_pending_pilots")
+            rows = m["rows"]
+            if m["a"] == "json" and unsorted and not isinstance(rows, str) and len({tuple(r[m["t"]:]) for r in rows}) > 1:
+                out.append("restore_unsorted_ids_distinct_pending_rows")
+    if case.get("net_json"):
+        out.append("network_json_before_use:" + case["net_json"])
+    # a period simulated after a restore / swap whose pilots come from a schedule submitted BEFORE it
+    for m in marks:
+        later = [e for e in obs["log"][m["nlog"]:]] if "log" in obs else []
+        if m["pending"] and later:
+            out.append("periods_simulated_after_" + ("restore" if m["a"] == "json" else "swap") + "_with_pending_pilots")
+
+
 def features(case, obs):
     out = ["mode:" + case["mode"]]
+    if case["mode"] != "exh":
+        out.append("station_ids:" + ("single" if len(case["stations"]) == 1 else
+                                     "sorted" if list(case["stations"]) == sorted(case["stations"]) else "unsorted"))
+        _mark_feats(case, obs, out)
     if case["mode"] == "direct":
         if case.get("limit") is not None:
             out.append("constrained_network")
